@@ -42,6 +42,7 @@ package compaction
 //@   check[C12] before call (*HierarchicalIterator).Next#1: isTombstone && cfAdds == cfMark ==> task.TargetLevel >= e.cfg.CompactionLevels - 1
 // createNewOutputFile: on success there is a current writer satisfying the writer invariant
 //@ func (*DefaultCompactionExecutor).CompactFiles$2
+//@   requires currentWriter != nil ==> sstable.WriterInv(currentWriter)
 //@   ensures[C12] result == nil ==> currentWriter != nil && sstable.WriterInv(currentWriter)
 //@ loop (*DefaultCompactionExecutor).CompactFiles#1
 //@   invariant[C12] (forall s int :: 0 <= s && s < len(iterators) ==> iterators[s] != nil) && (forall s int, t int :: 0 <= s && s < t && t < len(iterators) ==> dyn(iterators[s]) != dyn(iterators[t])) && (forall s int :: 0 <= s && s < len(iterators) ==> allocated(dyn(iterators[s])))
